@@ -1,4 +1,5 @@
 import ImathVerif.Model.Dispatch
+import ImathVerif.Gen.C13Box
 /-!
 Line-protocol driver for the dispatch model (C20).  One case per stdin line,
 whitespace-separated tokens:
@@ -15,16 +16,29 @@ whitespace-separated tokens:
        `boxExtendBy hull none` (Box.extendBy(array), one coordinate): n points, the initial box (e = empty);
        output `e` or `<lo> <hi>`
 
-`vec` runs `applyVectorized`, `mask` runs `applyMaskable` (the in-place operators);
-op in add|sub|mul|rsub on two's-complement integers of <bits> bits.
+  boxn <dim 2|3> <bits> <L> <p_0> .. <p_{L*dim-1}>  <e | b <lo_0> .. <lo_{dim-1}> <hi_0> .. <hi_{dim-1}>>  <POOL>
+       `boxExtendBy2 Gen.Box<dim>.extendByPoint Gen.Box<dim>.extendByBox (Gen.Box<dim>.default tmax tlowest)`:
+       the two-function reduction of PyImathBox.cpp at the definitions GENERATED from ImathBox.h, scalar type
+       Int with tmax = 2^(bits-1)-1, tlowest = -2^(bits-1).  L points, row-major (point p has coordinates
+       p*dim .. p*dim+dim-1); initial box `e` = `Gen.Box<dim>.default tmax tlowest` (Box()).
+       output `<min_0> .. <min_{dim-1}> <max_0> .. <max_{dim-1}>` (numbers always, also for an empty result)
+
+`vec` runs `applyVectorized`, `mask` runs `applyMaskable` (the in-place operators).
+op on two's-complement integers of <bits> bits, selected by the NUMBER of operands of the task:
+  2 operands: add|sub|mul|rsub (wrapped to <bits> bits), lt|le|gt|ge|eq|ne (result 1/0, no wrap)
+  1 operand : neg (wrapped)
+  3 operands: clamp on [a, l, h] = `ImathVerif.sclamp a l h` = (a < l) ? l : ((h < a) ? h : a)   (Imath::clamp)
 Output: `<ok|raise> <usedPool 0|1> <h_0'> .. <h_{H-1}'>`.
 -/
 open ImathVerif.Dispatch
+open ImathVerif
 
 def wrap (bits : Nat) (x : Int) : Int :=
   let m : Int := (2 : Int) ^ bits
   let r := x % m
   if r ≥ m / 2 then r - m else r
+
+def b2i (b : Bool) : Int := if b then 1 else 0
 
 def opOf (name : String) (bits : Nat) : List Int → Int
   | [a, b] =>
@@ -33,8 +47,15 @@ def opOf (name : String) (bits : Nat) : List Int → Int
     | "sub" => wrap bits (a - b)
     | "rsub" => wrap bits (b - a)
     | "mul" => wrap bits (a * b)
+    | "lt" => b2i (decide (a < b))
+    | "le" => b2i (decide (a ≤ b))
+    | "gt" => b2i (decide (a > b))
+    | "ge" => b2i (decide (a ≥ b))
+    | "eq" => b2i (decide (a = b))
+    | "ne" => b2i (decide (a ≠ b))
     | _ => 0
   | [a] => if name == "neg" then wrap bits (-a) else a
+  | [a, l, h] => if name == "clamp" then sclamp a l h else 0
   | _ => 0
 
 structure P where
@@ -116,9 +137,41 @@ def runBox : PM String := do
     | none => "e"
     | some (lo, hi) => s!"{lo} {hi}"
 
+/-- `boxn`: the two-function reduction at the generated `Box<dim>::extendBy` overloads -/
+def runBoxN : PM String := do
+  let dim ← nat
+  let bits ← nat
+  let L ← nat
+  let cs ← many (L * dim) int
+  let arr := cs.toArray
+  let tmax : Int := (2 : Int) ^ (bits - 1) - 1
+  let tlowest : Int := -((2 : Int) ^ (bits - 1))
+  let k ← tok
+  let ini : Option (Array Int × Array Int) ← if k == "e" then pure none else do
+    let lo ← many dim int
+    let hi ← many dim int
+    pure (some (lo.toArray, hi.toArray))
+  let pl ← pool
+  if dim == 2 then
+    let pts : Nat → V2 Int := fun p => ⟨arr.getD (p * 2) 0, arr.getD (p * 2 + 1) 0⟩
+    let box : Box2 Int := match ini with
+      | none => Gen.Box2.default tmax tlowest
+      | some (lo, hi) => ⟨⟨lo.getD 0 0, lo.getD 1 0⟩, ⟨hi.getD 0 0, hi.getD 1 0⟩⟩
+    let r := boxExtendBy2 Gen.Box2.extendByPoint Gen.Box2.extendByBox (Gen.Box2.default tmax tlowest) pl pts L box
+    return s!"{r.min.x} {r.min.y} {r.max.x} {r.max.y}"
+  else if dim == 3 then
+    let pts : Nat → V3 Int := fun p => ⟨arr.getD (p * 3) 0, arr.getD (p * 3 + 1) 0, arr.getD (p * 3 + 2) 0⟩
+    let box : Box3 Int := match ini with
+      | none => Gen.Box3.default tmax tlowest
+      | some (lo, hi) => ⟨⟨lo.getD 0 0, lo.getD 1 0, lo.getD 2 0⟩, ⟨hi.getD 0 0, hi.getD 1 0, hi.getD 2 0⟩⟩
+    let r := boxExtendBy2 Gen.Box3.extendByPoint Gen.Box3.extendByBox (Gen.Box3.default tmax tlowest) pl pts L box
+    return s!"{r.min.x} {r.min.y} {r.min.z} {r.max.x} {r.max.y} {r.max.z}"
+  else throw s!"boxn: dimension {dim} not supported"
+
 def runCase : PM String := do
   let cmd ← tok
   if cmd == "box" then return (← runBox)
+  if cmd == "boxn" then return (← runBoxN)
   let opn ← tok
   let bits ← nat
   let H ← nat
